@@ -47,6 +47,23 @@ def run_both(ctx, drv, h, lines, stream, jobs=12, correspond=True):
     impl, faults = core.run_lines_parallel(h, lines, jobs=jobs)
     for i, kind, err in faults:
         ctx.fail("fault:" + kind, "sanitizer fault in the JSON code on: " + lines[i][:300], {"line": lines[i], "stderr": err})
+    # the three-argument entry point with a scratch stream shared by all documents of a harness process (valid and
+    # rejected ones interleaved): same answers as with a fresh stream per document
+    sl = [("jsparseS" + l[7:]) for l in lines if l.startswith("jsparse ")]
+    if sl:
+        so, sf = core.run_lines_parallel(h, sl, jobs=jobs)
+        base = [a for l, a in zip(lines, impl) if l.startswith("jsparse ")]
+        for i, kind, err in sf:
+            ctx.fail("fault:" + kind, "sanitizer fault in JSON::Parse(stream, content, length) with a reused scratch stream on: " + sl[i][:300], {"line": sl[i], "stderr": err})
+        nb = 0
+        for l, a, b in zip(sl, base, so):
+            if a.startswith("FAULT") or b.startswith("FAULT") or a == b:
+                continue
+            nb += 1
+            if nb <= 3:
+                ctx.fail("shared-scratch-stream", "JSON::Parse(stream, …) with a reused scratch stream differs from a fresh parse: %s -> %s (fresh: %s)" % (l[:300], b[:200], a[:200]),
+                         {"line": l, "shared": b, "fresh": a, "note": "the line's result depends on the documents parsed before it in the same harness process"})
+        ctx.count(stream + "(shared scratch stream)", len(sl), len(set(sl)))
     model = None
     if correspond and drv:
         model, mf = core.run_lines_parallel(drv, lines, jobs=jobs, env=None)
